@@ -963,7 +963,7 @@ func (c *fctx) calleeKey(call *ast.CallExpr) (key string, recvExpr ast.Expr) {
 			if p, ok := rt.(*types.Pointer); ok {
 				rt = p.Elem()
 			}
-			if n, ok := rt.(*types.Named); ok && fn.Pkg() != nil {
+			if n, ok := types.Unalias(rt).(*types.Named); ok && fn.Pkg() != nil {
 				return fn.Pkg().Path() + "." + n.Obj().Name() + "." + fn.Name(), f.X
 			}
 		}
